@@ -180,14 +180,16 @@ CLAIMED = {
              'pattern shape of up to N elements (N=2 quick, 3 thorough) x trailing slash x slash mode the regex produced '
              'by the real _compile_path_pattern equals, as a language over ALL paths, a spec regex built from the '
              'statement; K: BoundRoute.match_path never raises and returns None or exactly the converter names; the '
-             'converter closures are compared natively with a declarative matcher (bounded).',
+             'converter closures are compared natively with a declarative matcher (bounded: every type x operator x slash '
+             'mode x trailing slash over segments incl. falsy conversions).',
         note='A-re (Python re semantics for the translated constructs); patterns are enumerated by shape (bounded in '
              'configurations, complete in paths); known finding F3 (empty pieces in multi bindings) is case-split; O2 '
              '(strict pattern with all bindings absent vs "/") is a documented spec decision.',
         technique='contract-based: RegLan lemmas on constants extracted from the real module + per-shape language '
                   'equivalence proofs (z3), K contract on match_path', design_ref='DESIGN.md 7 C05'),
     'C02': dict(
-        text='K: sinter.inject (exactly one call of f, by keyword only; keys = (offered or defaulted) and declared; each '
+        text='K: sinter.chain_argspec (required / optional / provided name sets per level, loop invariants), '
+             'sinter.inject (exactly one call of f, by keyword only; keys = (offered or defaulted) and declared; each '
              'value is the injectable when offered, else the own default), BoundRoute.execute / execute_error (one inject '
              'call on the compiled chain / error renderer with caller keywords over route resources over the built-ins), '
              'Application.dispatch via at-call obligations on every execute / execute_error / uncaught_to_response / '
